@@ -222,7 +222,7 @@ ResMatches(spec, logged) ==
 
 OpOf(e) == [k |-> e.op.k, id |-> e.op.id, id2 |-> e.op.id2,
             l |-> IF e.op.l >= 1 THEN Pool[e.op.l] ELSE [rt |-> "none"],
-            n |-> IF e.op.k \in {"rsc", "setf"} THEN e.op.n ELSE 0,
+            n |-> IF e.op.k \in {"rsc", "setf", "ren"} THEN e.op.n ELSE 0,
             ls |-> IF e.op.k \in {"load", "setf"} THEN [i \in DOMAIN e.op.ls |-> Pool[e.op.ls[i]]] ELSE <<>>]
 
 ResFails(outs, e) ==
